@@ -2,10 +2,218 @@
 
 package act
 
+import (
+	"sort"
+
+	"ergo.services/ergo/gen"
+)
+
 // Verification exports (build tag "verif"): give the harness access to the
-// pure restart-intensity function.
+// pure restart-intensity function and to the three supervisor state machines
+// (supOFO, supARFO, supSOFO) without a node.
 
 // VerifCheckRestartIntensity calls supCheckRestartIntensity.
 func VerifCheckRestartIntensity(restarts []int64, period int, intensity int) ([]int64, bool) {
 	return supCheckRestartIntensity(restarts, period, intensity)
+}
+
+// VerifChildSpec is a plain copy of supChildSpec.
+type VerifChildSpec struct {
+	Name        gen.Atom
+	Significant bool
+	Register    bool
+	Disabled    bool
+	I           int
+	PID         gen.PID
+	Args        []any
+}
+
+// VerifAction is a plain copy of supAction.
+type VerifAction struct {
+	Do        int
+	Spec      VerifChildSpec
+	Terminate []gen.PID
+	Reason    error
+}
+
+// VerifSupState is a plain copy of the fields of the state machine.
+type VerifSupState struct {
+	Kind           string // "ofo", "arfo", "sofo"
+	Mode           int
+	Rest           bool
+	KeepOrder      bool
+	Autoshutdown   bool
+	Shutdown       bool
+	ShutdownReason error
+	Wait           []gen.PID // sorted by ID
+	RestartI       int
+	I              int
+	Restarts       []int64
+	Specs          []VerifChildSpec // OFO/ARFO: slice order; SOFO: sorted by i
+	Pids           []VerifPidName   // SOFO only, sorted by pid ID
+}
+
+type VerifPidName struct {
+	PID  gen.PID
+	Name gen.Atom
+}
+
+// VerifSup wraps one supBehavior.
+type VerifSup struct {
+	b supBehavior
+}
+
+func verifFactory() gen.ProcessBehavior { return nil }
+
+// VerifNewSup creates the state machine ProcessInit would create for the type.
+func VerifNewSup(t SupervisorType) *VerifSup {
+	switch t {
+	case SupervisorTypeOneForOne:
+		return &VerifSup{createSupOneForOne()}
+	case SupervisorTypeRestForOne, SupervisorTypeAllForOne:
+		return &VerifSup{createSupAllRestForOne()}
+	case SupervisorTypeSimpleOneForOne:
+		return &VerifSup{createSupSimpleOneForOne()}
+	}
+	return nil
+}
+
+func verifSpecOut(cs supChildSpec) VerifChildSpec {
+	return VerifChildSpec{
+		Name:        cs.Name,
+		Significant: cs.Significant,
+		Register:    cs.register,
+		Disabled:    cs.disabled,
+		I:           cs.i,
+		PID:         cs.pid,
+		Args:        cs.Args,
+	}
+}
+
+func verifSpecIn(cs VerifChildSpec) supChildSpec {
+	var s supChildSpec
+	s.Name = cs.Name
+	s.Significant = cs.Significant
+	s.Factory = verifFactory
+	s.Args = cs.Args
+	s.register = cs.Register
+	s.disabled = cs.Disabled
+	s.i = cs.I
+	s.pid = cs.PID
+	return s
+}
+
+func verifActionOut(a supAction) VerifAction {
+	return VerifAction{Do: int(a.do), Spec: verifSpecOut(a.spec), Terminate: a.terminate, Reason: a.reason}
+}
+
+// VerifChild builds a SupervisorChildSpec with a dummy factory (an empty name keeps the factory too,
+// so that validateChildSpec rejects it for the name).
+func VerifChild(name gen.Atom, significant bool) SupervisorChildSpec {
+	return SupervisorChildSpec{Name: name, Significant: significant, Factory: verifFactory}
+}
+
+func (v *VerifSup) call(f func() (supAction, error)) (a VerifAction, err error, panicked bool) {
+	defer func() {
+		if r := recover(); r != nil {
+			panicked = true
+		}
+	}()
+	act, e := f()
+	return verifActionOut(act), e, false
+}
+
+func (v *VerifSup) Init(spec SupervisorSpec) (VerifAction, error, bool) {
+	return v.call(func() (supAction, error) { return v.b.init(spec) })
+}
+func (v *VerifSup) ChildAddSpec(spec SupervisorChildSpec) (VerifAction, error, bool) {
+	return v.call(func() (supAction, error) { return v.b.childAddSpec(spec) })
+}
+func (v *VerifSup) ChildSpec(name gen.Atom) (VerifAction, error, bool) {
+	return v.call(func() (supAction, error) { return v.b.childSpec(name) })
+}
+func (v *VerifSup) ChildStarted(cs VerifChildSpec, pid gen.PID) (VerifAction, error, bool) {
+	return v.call(func() (supAction, error) { return v.b.childStarted(verifSpecIn(cs), pid), nil })
+}
+func (v *VerifSup) ChildTerminated(name gen.Atom, pid gen.PID, reason error) (VerifAction, error, bool) {
+	return v.call(func() (supAction, error) { return v.b.childTerminated(name, pid, reason), nil })
+}
+func (v *VerifSup) ChildEnable(name gen.Atom) (VerifAction, error, bool) {
+	return v.call(func() (supAction, error) { return v.b.childEnable(name) })
+}
+func (v *VerifSup) ChildDisable(name gen.Atom) (VerifAction, error, bool) {
+	return v.call(func() (supAction, error) { return v.b.childDisable(name) })
+}
+func (v *VerifSup) Children() []SupervisorChild { return v.b.children() }
+
+func verifSortedPids(m map[gen.PID]bool) []gen.PID {
+	var l []gen.PID
+	for p := range m {
+		l = append(l, p)
+	}
+	sort.Slice(l, func(i, j int) bool { return l[i].ID < l[j].ID })
+	return l
+}
+
+// State reads the fields back.
+func (v *VerifSup) State() VerifSupState {
+	var st VerifSupState
+	switch s := v.b.(type) {
+	case *supOFO:
+		st.Kind = "ofo"
+		st.Mode = s.mode
+		st.Autoshutdown = s.autoshutdown
+		st.Shutdown = s.shutdown
+		st.ShutdownReason = s.shutdownReason
+		st.Wait = verifSortedPids(s.wait)
+		st.I = s.i
+		st.Restarts = append([]int64(nil), s.restarts...)
+		for _, cs := range s.spec {
+			st.Specs = append(st.Specs, verifSpecOut(*cs))
+		}
+	case *supARFO:
+		st.Kind = "arfo"
+		st.Mode = s.mode
+		st.Rest = s.rest
+		st.KeepOrder = s.keeporder
+		st.Autoshutdown = s.autoshutdown
+		st.ShutdownReason = s.shutdownReason
+		st.Wait = verifSortedPids(s.wait)
+		st.RestartI = s.restartI
+		st.I = s.i
+		st.Restarts = append([]int64(nil), s.restarts...)
+		for _, cs := range s.spec {
+			st.Specs = append(st.Specs, verifSpecOut(*cs))
+		}
+	case *supSOFO:
+		st.Kind = "sofo"
+		st.Shutdown = s.shutdown
+		st.ShutdownReason = s.shutdownReason
+		st.Wait = verifSortedPids(s.wait)
+		st.I = s.i
+		st.Restarts = append([]int64(nil), s.restarts...)
+		for _, cs := range s.spec {
+			st.Specs = append(st.Specs, verifSpecOut(*cs))
+		}
+		sort.Slice(st.Specs, func(i, j int) bool { return st.Specs[i].I < st.Specs[j].I })
+		for p, cs := range s.pids {
+			st.Pids = append(st.Pids, VerifPidName{p, cs.Name})
+		}
+		sort.Slice(st.Pids, func(i, j int) bool { return st.Pids[i].PID.ID < st.Pids[j].PID.ID })
+	}
+	return st
+}
+
+// SetRestarts replaces the stored restart history (the only way the harness controls the clock:
+// the history is shifted relative to the real time, the code under test is not touched).
+func (v *VerifSup) SetRestarts(r []int64) {
+	c := append([]int64(nil), r...)
+	switch s := v.b.(type) {
+	case *supOFO:
+		s.restarts = c
+	case *supARFO:
+		s.restarts = c
+	case *supSOFO:
+		s.restarts = c
+	}
 }
